@@ -401,19 +401,25 @@ def c_case(case, obs, prefix):
 
 # ---------------------------------------------------------------- driver
 
-def run_cases(ctx, harness, cases, extra_defs="", extra_prints=(), shard=60, tag=""):
-    """Runs the cases on the implementation and on the model (inside Coq).
+def run_cases(ctx, harness, cases, extra_defs="", extra_prints=(), shard=12, tag=""):
+    """Runs the cases on the implementation and on the model (inside Coq; shards compiled in parallel).
     Returns dict(impl=..., diffs=[(case, event, code)], extra={ident: term}, log=...)."""
+    from concurrent.futures import ThreadPoolExecutor
     res, log = common.run_harness(ctx, harness, "pfcp", cases, timeout=3000, tag=tag)
     if res is None:
         return {"error": "harness run failed: " + log[-1500:]}
     prefix, impl = res["prefix"], res["cases"]
     diffs, extra = [], {}
-    for k in range(0, len(cases), shard):
+
+    def one(k):
         chunk = list(zip(cases[k:k + shard], impl[k:k + shard]))
         body = "Definition cases : list pcase := \n" + clist([c_case(c, o, prefix) for c, o in chunk]) + ".\n"
         body += "Definition diffs := Eval vm_compute in cases_diff cases 0.\n" + extra_defs
-        out, clog = common.run_coq_cases(ctx, "cases_pfcp%s_%d" % (tag, k), body, REQUIRES, ["diffs"] + list(extra_prints))
+        return k, common.run_coq_cases(ctx, "cases_pfcp%s_%d" % (tag, k), body, REQUIRES, ["diffs"] + list(extra_prints))
+
+    with ThreadPoolExecutor(max_workers=14) as ex:
+        results = list(ex.map(one, range(0, len(cases), shard)))
+    for k, (out, clog) in results:
         if out is None:
             return {"error": "cases file does not compile (model broken?): " + clog[-1500:], "impl": impl, "prefix": prefix}
         nums = common.parse_N_list(out["diffs"])
